@@ -608,7 +608,9 @@ func (s *Silences) Maintenance(interval time.Duration, snapf string, stopc <-cha
 			return size, err
 		}
 		if size, err = s.Snapshot(f); err != nil {
-			f.Close()
+			// Do not replace the previous snapshot with a partially written one.
+			f.File.Close()
+			os.Remove(f.Name())
 			return size, err
 		}
 		return size, f.Close()
